@@ -318,6 +318,42 @@ func init() {
 			return m.runBody(caller, fn, na, nil)
 		},
 
+		// ---- time.Now: arbitrary non-decreasing instants (wall clock reading, no monotonic part) ----
+		"time.Now": func(m *Machine, _ *frame, fn *ssa.Function, a []Value) Value {
+			sec := m.ND("time.Now.sec", 64)
+			nsec := m.ND("time.Now.nsec", 64)
+			C := m.C
+			lo, hi := C.Const(64, 1600000000), C.Const(64, 4000000000)
+			m.Assume(C.And(C.Sle(lo, sec), C.Slt(sec, hi)))
+			m.Assume(C.And(C.Sle(C.Const(64, 0), nsec), C.Slt(nsec, C.Const(64, 1000000000))))
+			if prev, ok := m.natives["time.Now.prev"].([2]*term.T); ok {
+				m.Assume(C.Or(C.Slt(prev[0], sec), C.And(C.Eq(prev[0], sec), C.Sle(prev[1], nsec))))
+			}
+			m.natives["time.Now.prev"] = [2]*term.T{sec, nsec}
+			var loc Value = (*Value)(nil)
+			if tp := m.P.Prog.ImportedPackage("time"); tp != nil {
+				if g := tp.Var("localLoc"); g != nil {
+					loc = m.global(g)
+				}
+			}
+			return Struct{nsec, C.Add(sec, C.Const(64, 62135596800)), loc}
+		},
+		"github.com/oklog/ulid/v2.Now":       func(m *Machine, _ *frame, fn *ssa.Function, a []Value) Value { return m.C.Const(64, 1700000000000) },
+		"github.com/oklog/ulid/v2.Timestamp": func(m *Machine, _ *frame, fn *ssa.Function, a []Value) Value { return m.C.Const(64, 1700000000000) },
+		// ulid.MustNew: fresh, pairwise distinct identifiers (documented contract: unique ids)
+		"github.com/oklog/ulid/v2.MustNew": func(m *Machine, _ *frame, fn *ssa.Function, a []Value) Value {
+			n, _ := m.natives["ulid.counter"].(int)
+			n++
+			m.natives["ulid.counter"] = n
+			arr := make(Array, 16)
+			for i := range arr {
+				arr[i] = m.C.Const(8, 0)
+			}
+			arr[14] = m.C.Const(8, uint64(n>>8))
+			arr[15] = m.C.Const(8, uint64(n))
+			return arr
+		},
+
 		// ---- sort ----
 		"sort.Slice":       sortSliceIntr,
 		"sort.SliceStable": sortSliceIntr,
